@@ -345,7 +345,11 @@ def build_classes(spec):
             if getattr(self, "sr", False):
                 raise RuntimeError("str raises")
             return self.args[0] if self.args else ""
-        classes[cid] = type("Cls%d" % cid, tuple(classes[b] for b in bases), {"__str__": __str__, "__module__": "verifgen"})
+
+        def __bool__(self):
+            return not getattr(self, "falsy", False)
+        classes[cid] = type("Cls%d" % cid, tuple(classes[b] for b in bases),
+                            {"__str__": __str__, "__bool__": __bool__, "__module__": "verifgen"})
     return classes
 
 
@@ -448,6 +452,7 @@ class Interp(object):
             obj = cls()
         try:
             obj.sr = bool(e["sr"])
+            obj.falsy = bool(e.get("falsy", False))
         except Exception:
             pass
         return obj
@@ -1098,7 +1103,8 @@ class Gen(object):
         rng = self.rng
         cls = cls if cls is not None else rng.choice(self.class_ids)
         e = {"id": self.next_exn, "cls": cls,
-             "text": rng.randrange(100, 120), "sr": cls >= 50 and rng.random() < self.sr}
+             "text": rng.randrange(100, 120), "sr": cls >= 50 and rng.random() < self.sr,
+             "falsy": cls >= 50 and rng.random() < 0.12}
         self.next_exn += 1
         return e
 
@@ -1158,6 +1164,8 @@ class Gen(object):
                 out.append(st)
                 if st[0] == "raise":
                     break
+                if st[0] == "msg" and st[3] is not None and rng.random() < 0.3:
+                    out.append(json.loads(json.dumps(st)))     # the same typed message again: same type object, equal values
         return out
 
     def stmt(self, depth, enclosing, c):
@@ -1167,7 +1175,7 @@ class Gen(object):
             h = self.new_h()
             style = rng.choice(self.styles)
             task = rng.random() < self.p_task
-            t = rng.randrange(10, 16)
+            t = 5 if rng.random() < 0.08 else rng.randrange(10, 16)      # 5 = "" (start_action's default type)
             if rng.random() < self.p_typed:
                 sd, sl = self.typed_fields(20, 26)
                 ud, ul = self.typed_fields(26, 32)
@@ -1186,6 +1194,8 @@ class Gen(object):
             if rng.random() < self.p_typed:
                 decl, logged = self.typed_fields(32, 40)
                 return ["msg", t, logged, decl, "typed"]
+            if rng.random() < 0.06:
+                t = 5
             return ["msg", t, self.fields(3, 32, 40), None, rng.choice(["log_message", "log_message", "Message.log", "Message.new"])]
         if r < 0.62 + self.p_raise:
             return ["raise", self.exn()]
@@ -1252,7 +1262,7 @@ def is_exception_class(classes_spec, cid):
     return issubclass(classes[cid], Exception)
 
 
-def gen_case(rng, n_dests=2, fault=0.5, registry_rate=0.5, file_dest=False, **kw):
+def gen_case(rng, n_dests=2, fault=0.5, registry_rate=0.5, file_dest=False, p_globals=0.0, **kw):
     g = Gen(rng, **kw)
     prog = g.program()
     dests = gen_dests(rng, g, n_dests, fault)
@@ -1265,7 +1275,14 @@ def gen_case(rng, n_dests=2, fault=0.5, registry_rate=0.5, file_dest=False, **kw
                 registry.append([cid, ["fields", g.fields(2, 40, 46)]])
             else:
                 registry.append([cid, ["raise", g.exn(cls=rng.choice([8, 9] + [c for c in g.class_ids if c >= 50]))]])
-    return {"classes": g.classes, "registry": registry, "pre": [["add", dests]], "prog": prog}
+    pre = [["add", dests]]
+    if rng.random() < p_globals:
+        gl = ["globals", g.fields(2, 46, 50)]
+        if rng.random() < 0.5:
+            pre.insert(0, gl)
+        else:
+            pre.append(gl)
+    return {"classes": g.classes, "registry": registry, "pre": pre, "prog": prog}
 
 
 def describe(case):
